@@ -72,7 +72,7 @@ def names(tier):
 
 
 def dimensions(tier):
-    return {'names': len(names(tier)), 'form': 2, 'depth_variants': 6, 'dates': len(DATES) * 2}
+    return {'names': len(names(tier)), 'form': 2, 'depth_variants': 8, 'dates': len(DATES) * 2}
 
 
 def cases(tier):
@@ -80,7 +80,7 @@ def cases(tier):
     for form in ('home', 'topdir'):
         for n in names(tier):
             out.append({'name': n, 'form': form, 'dirs': [], 'date': '2024-05-06T07:08:09', 'us': 0})
-        for dirs in (['d 1'], ['%41', 'x\ny'], ['é', '+', '='], ['a%', '#?'], ['..x', ' '], ['日本', '%2F', 'z']):
+        for dirs in (['d 1'], ['%41', 'x\ny'], ['é', '+', '='], ['a%', '#?'], ['..x', ' '], ['日本', '%2F', 'z'], ['mnt', 'v1', 'deep'], ['home', 'u', 'w']):
             for n in ('f', '%', 'a b'):
                 out.append({'name': n, 'form': form, 'dirs': dirs, 'date': '2024-05-06T07:08:09', 'us': 0})
         for d in DATES:
